@@ -334,7 +334,7 @@ func midiNoteOff(ch, key byte) []byte { return midi.NoteOff(ch, key) }
 func genCase(t *rapid.T) Case {
 	var c Case
 	c.Res = uint16(8 * rapid.OneOf(rapid.SampledFrom([]int{3, 12, 60, 120, 1920}), rapid.IntRange(3, 1920)).Draw(t, "res/8"))
-	nb := rapid.IntRange(1, 12).Draw(t, "nBars")
+	nb := rapid.OneOf(rapid.IntRange(1, 12), rapid.IntRange(1, 12), rapid.IntRange(1, 12), rapid.IntRange(1, 12), rapid.IntRange(100, 400)).Draw(t, "nBars")
 	type sig struct{ n, d int }
 	favourites := []sig{{4, 4}, {3, 4}, {6, 8}, {9, 8}, {12, 8}, {7, 4}, {15, 16}, {5, 4}, {2, 2}, {24, 32}, {7, 1}, {8, 4}, {16, 16}}
 	num, den := 4, 4
@@ -411,7 +411,7 @@ func genCase(t *rapid.T) Case {
 }
 
 var songs = ev.NewCheck("C20", "songs",
-	"rapid: songs of 1..12 bars; time signatures numerator 1..24 over denominators 1,2,4,8,16,32 with bars of at most 255 thirty-seconds (biased to 6/8, 9/8, 12/8, 7/4, 15/16), bars inheriting the previous signature; resolutions divisible by 8 (24..15360); up to 8 tracks; per bar 0..5 events (NoteOn velocity > 0 with a duration ending within the song, control/program change, pitch bend, channel and key pressure, sysex) at any in-bar position; in one case of four the song is exported once in the middle of being built, then possibly edited (new resolution, time signatures of existing bars replaced through Bars()), the remaining bars are added and it is exported again (export - edit - export); oracle = independent bar/grid model: bar start = sum of previous num*32/den * res/8, event at start+pos*t32, NoteOff at start+(pos+dur)*t32, time-signature event at every change relative to 4/4, every track ends at the song end, no wrapped delta; ToSMF0 and the union of ToSMF1 must equal the model (hence each other) as multisets of (tick, bytes), ToSMF1 assigns events to tracks by TrackNo; non-trivial = >= 2 bars, a bar with numerator >= 8 and an event in or after it in a later bar; distinct by case hash",
+	"rapid: songs of 1..12 bars (one song in five: 100..400 bars); time signatures numerator 1..24 over denominators 1,2,4,8,16,32 with bars of at most 255 thirty-seconds (biased to 6/8, 9/8, 12/8, 7/4, 15/16), bars inheriting the previous signature; resolutions divisible by 8 (24..15360); up to 8 tracks; per bar 0..5 events (NoteOn velocity > 0 with a duration ending within the song, control/program change, pitch bend, channel and key pressure, sysex) at any in-bar position; in one case of four the song is exported once in the middle of being built, then possibly edited (new resolution, time signatures of existing bars replaced through Bars()), the remaining bars are added and it is exported again (export - edit - export); oracle = independent bar/grid model: bar start = sum of previous num*32/den * res/8, event at start+pos*t32, NoteOff at start+(pos+dur)*t32, time-signature event at every change relative to 4/4, every track ends at the song end, no wrapped delta; ToSMF0 and the union of ToSMF1 must equal the model (hence each other) as multisets of (tick, bytes), ToSMF1 assigns events to tracks by TrackNo; non-trivial = >= 2 bars, a bar with numerator >= 8 and an event in or after it in a later bar; distinct by case hash",
 	genCase, run)
 
 func TestPropSongs(t *testing.T) { songs.Rapid(t, 3000, 60000) }
